@@ -32,6 +32,7 @@ import (
 	"github.com/ipfs/go-graphsync/requestmanager/executor"
 	"github.com/ipfs/go-graphsync/requestmanager/hooks"
 	"github.com/ipfs/go-graphsync/taskqueue"
+	"github.com/ipfs/go-peertaskqueue/peertask"
 	"github.com/ipld/go-ipld-prime/datamodel"
 	"github.com/ipld/go-ipld-prime/linking"
 	cidlink "github.com/ipld/go-ipld-prime/linking/cid"
@@ -46,7 +47,7 @@ const mailboxSlots = 16 // cap(rm.messages), requestmanager.New
 
 type backlogSpec struct {
 	N       int    `json:"n"`     // chain length (>= 3)
-	Cause   string `json:"cause"` // fail | hookerr | apicancel
+	Cause   string `json:"cause"` // fail | hookerr | apicancel | resume (unpause issued before the paused task is marked done)
 	Code    int    `json:"code,omitempty"`
 	Fillers int    `json:"fillers"` // unrelated response messages queued behind the held one (16 fills the mailbox)
 }
@@ -62,7 +63,31 @@ func genBacklog(r *rng.R) rcase {
 	if r.P(1, 4) {
 		b.Fillers = r.Range(0, mailboxSlots-2) // mailbox not full: the easy variant
 	}
+	if r.P(1, 3) {
+		b.Cause, b.Fillers = "resume", 0 // pause by block hook, unpause before TaskDone has happened
+	}
 	return rcase{Kind: "backlog", Backlog: b}
+}
+
+// gateQueue is the real worker task queue whose TaskDone can be held by the driver (one shot): in /repo TaskDone
+// runs inside the actor loop (releaseRequestTask), so nothing can overtake it; a TaskDone moved to the worker
+// goroutine leaves a window in which an unpause finds the request Paused while its topic is still active.
+type gateQueue struct {
+	*taskqueue.WorkerTaskQueue
+	g     *gate
+	mu    *sync.Mutex
+	armed *bool
+}
+
+func (q *gateQueue) TaskDone(p peer.ID, task *peertask.Task) {
+	q.mu.Lock()
+	a := *q.armed
+	*q.armed = false
+	q.mu.Unlock()
+	if a {
+		q.g.wait("taskdone", false)
+	}
+	q.WorkerTaskQueue.TaskDone(p, task)
 }
 
 type backlogResult struct {
@@ -134,8 +159,11 @@ func runBacklog(bs backlogSpec) (res backlogResult) {
 		}
 	})
 	tq := taskqueue.NewTaskQueue(ctx)
+	tg := &gate{ch: make(chan bool)} // TaskDone
+	tdArmed := false                 // guarded by mu
 	rm := requestmanager.New(ctx, persistenceoptions.New(), lsys, hooks.NewRequestHooks(), respHooks,
-		listeners.NewNetworkErrorListeners(), listeners.NewRequestProcessingListeners(), tq, connMgr{}, 0, nil)
+		listeners.NewNetworkErrorListeners(), listeners.NewRequestProcessingListeners(),
+		&gateQueue{WorkerTaskQueue: tq, g: tg, mu: &mu, armed: &tdArmed}, connMgr{}, 0, nil)
 	ex := executor.NewExecutor(rm, blockHooks)
 	byID := map[graphsync.RequestID]*preq{q.id: q}
 	rm.SetDelegate(pairHandler{&mu, byID})
@@ -149,6 +177,9 @@ func runBacklog(bs backlogSpec) (res backlogResult) {
 			}
 			if k, _ := rg.held(); k != "" {
 				rg.release(false)
+			}
+			if k, _ := tg.held(); k != "" {
+				tg.release(false)
 			}
 			settle()
 		}
@@ -296,7 +327,106 @@ func runBacklog(bs backlogSpec) (res backlogResult) {
 	}
 	logObs("OEnv LEnvPause")
 	go func() { _ = rm.PauseRequest(ctx, q.id) }()
-	if !quiet() || !goGate() { // the block hook returns: pause token consumed, request Paused
+	if !quiet() {
+		return
+	}
+	if bs.Cause == "resume" {
+		// the block hook returns with TaskDone held: the executor stops on the pause and releases its task;
+		// an unpause is issued at once, before TaskDone has happened; then TaskDone is let go
+		mu.Lock()
+		tdArmed = true
+		mu.Unlock()
+		logObs("OExecGo GHook CLocOk")
+		q.g.release(false)
+		if !settleOnly() {
+			return
+		}
+		if k, _ := tg.held(); k != "taskdone" {
+			res.goViol = "driver: TaskDone was not reached after the pause"
+			return
+		}
+		logObs("OEnv LEnvUnpause")
+		go func() { _ = rm.UnpauseRequest(ctx, q.id) }()
+		if !settleOnly() {
+			return
+		}
+		tg.release(false)
+		if !quiet() {
+			return
+		}
+		if k, _ := q.g.held(); k == "" && q.live {
+			// nothing held by the driver, request still in the table: it must not sit in the queue with idle workers
+			if st := rm.PeerState(p).RequestStates[q.id]; st == graphsync.Queued {
+				res.goViol = "UnpauseRequest returned and the request is Queued, but its task was never queued (topic still active when it was pushed): workers idle, the request never runs again and its channels never close"
+				return
+			}
+		}
+		for i := 0; i < 200; i++ {
+			progress := false
+			if k, _ := q.g.held(); k != "" {
+				if !goGate() {
+					return
+				}
+				progress = true
+			}
+			if r := recvP(); r == "got" {
+				progress = true
+			}
+			if !quiet() {
+				return
+			}
+			if r := recvE(); r == "got" {
+				progress = true
+			}
+			if !quiet() {
+				return
+			}
+			if !progress {
+				break
+			}
+		}
+		if !(q.closedP && q.closedE) {
+			logObs("OEnv LEnvCtxCancel")
+			cancelReq()
+			if !quiet() {
+				return
+			}
+			for i := 0; i < 200; i++ {
+				progress := false
+				if k, _ := q.g.held(); k != "" {
+					if !goGate() {
+						return
+					}
+					progress = true
+				}
+				if r := recvP(); r == "got" {
+					progress = true
+				}
+				if !quiet() {
+					return
+				}
+				if r := recvE(); r == "got" {
+					progress = true
+				}
+				if !quiet() {
+					return
+				}
+				if !progress {
+					break
+				}
+			}
+		}
+		recvP()
+		recvE()
+		if !quiet() {
+			return
+		}
+		if !(q.closedP && q.closedE) {
+			res.goViol = "resumed request: caller kept reading and cancelled in the end, but the returned channels are not closed"
+		}
+		return
+	}
+	if !goGate() { // the block hook returns: pause token consumed, request Paused
 		return
 	}
 	// --- hold the loop inside the response hook of message M0
